@@ -201,6 +201,21 @@ pub fn run_world_check(c: WorldCheck, tier: Tier, seed: u64) -> i32 {
         s.search("world-lifecycle-overlap", "world", tier.pick(300, 4000), overlap_strategy, &case);
         if tier == Tier::Thorough {
             enumerate_faults(&mut s, c.prop, 150, &c.profile, c.nontrivial, c.classes);
+            // every RPC of two-attempt histories delayed (bookkeeping of one lifecycle overtaken by the next)
+            use proptest::strategy::{Strategy, ValueTree};
+            use proptest::test_runner::{Config, RngAlgorithm, TestRng, TestRunner};
+            let mut bytes = [9u8; 32];
+            bytes[..8].copy_from_slice(&seed.to_le_bytes());
+            let mut runner = TestRunner::new_with_rng(Config::default(), TestRng::from_seed(RngAlgorithm::ChaCha, &bytes));
+            let strat = overlap_strategy();
+            let mut all = vec![];
+            for _ in 0..200 {
+                let mut b = strat.new_tree(&mut runner).unwrap().current();
+                b.hold.clear();
+                all.extend(delay_family(&b));
+            }
+            s.extra.insert("delay_enumeration".into(), json!({"base_histories": 200, "variants": all.len(), "per_base": "every RPC ordinal withheld for 6 / 14 / 30 further node-side effects"}));
+            s.enumerate("enumerate-delayed-rpcs", "world", all, &case);
         }
     }
     if tier == Tier::Thorough {
@@ -233,7 +248,7 @@ pub fn spec(prop: &str) -> Option<WorldCheck> {
             profile: Profile { max_payments: 3, w_hash_mismatch: 25, w_reject: 4, w_under: 8, ..d.clone() },
             thorough_profile: Some(Profile { max_payments: 3, w_hash_mismatch: 15, max_parts: 4, ..d.clone() }),
             cases_quick: 600,
-            cases_thorough: 4000,
+            cases_thorough: 12000,
             nontrivial: |s| s.resolves > 0 && (s.hashes_with_trampoline >= 2 || s.crashes > 0),
             classes: |s| {
                 let mut v = vec![];
@@ -249,7 +264,7 @@ pub fn spec(prop: &str) -> Option<WorldCheck> {
             profile: Profile { w_crash: 7, w_under: 5, w_reject: 10, ..d.clone() },
             thorough_profile: Some(Profile { w_crash: 7, w_under: 5, read_faults: true, ..d.clone() }),
             cases_quick: 800,
-            cases_thorough: 6000,
+            cases_thorough: 18000,
             nontrivial: |s| s.pays > 0 && s.answered_after_attempt > 0,
             classes: |s| {
                 let mut v = vec![];
@@ -266,7 +281,7 @@ pub fn spec(prop: &str) -> Option<WorldCheck> {
             profile: Profile { max_parts: 5, w_under: 30, w_reject: 4, w_nontramp: 2, ..d.clone() },
             thorough_profile: Some(Profile { max_parts: 5, w_under: 30, extreme_cfg: true, ..d.clone() }),
             cases_quick: 800,
-            cases_thorough: 6000,
+            cases_thorough: 18000,
             nontrivial: |s| s.multi_htlc_pay > 0 || s.pay_after_restart > 0,
             classes: |s| {
                 let mut v = vec![];
@@ -282,7 +297,7 @@ pub fn spec(prop: &str) -> Option<WorldCheck> {
             profile: Profile { max_parts: 4, w_reject: 12, w_crash: 2, extreme_cfg: false, ..d.clone() },
             thorough_profile: Some(Profile { max_parts: 4, extreme_cfg: true, ..d.clone() }),
             cases_quick: 800,
-            cases_thorough: 6000,
+            cases_thorough: 18000,
             nontrivial: |s| s.c04_nontrivial > 0,
             classes: |s| {
                 let mut v = vec![];
@@ -297,7 +312,7 @@ pub fn spec(prop: &str) -> Option<WorldCheck> {
             profile: Profile { w_crash: 8, w_under: 5, w_reject: 3, max_parts: 2, ..d.clone() },
             thorough_profile: Some(Profile { w_crash: 8, max_parts: 4, ..d.clone() }),
             cases_quick: 800,
-            cases_thorough: 6000,
+            cases_thorough: 18000,
             nontrivial: |s| s.earlier_attempt_when_ready > 0,
             classes: |s| {
                 let mut v = vec![];
@@ -313,7 +328,7 @@ pub fn spec(prop: &str) -> Option<WorldCheck> {
             profile: Profile { max_parts: 5, w_reject: 30, w_under: 10, w_crash: 2, ..d.clone() },
             thorough_profile: None,
             cases_quick: 800,
-            cases_thorough: 8000,
+            cases_thorough: 24000,
             nontrivial: |s| s.max_batch >= 2 || s.rejecting_in_multi > 0,
             classes: |s| {
                 let mut v = vec![];
@@ -329,7 +344,7 @@ pub fn spec(prop: &str) -> Option<WorldCheck> {
             profile: Profile { w_crash: 6, w_under: 5, w_reject: 3, max_parts: 2, ..d.clone() },
             thorough_profile: None,
             cases_quick: 800,
-            cases_thorough: 8000,
+            cases_thorough: 24000,
             nontrivial: |s| s.state_write_after_part > 0 || s.write_faults_hit > 0,
             classes: |s| {
                 let mut v = vec![];
@@ -344,7 +359,7 @@ pub fn spec(prop: &str) -> Option<WorldCheck> {
             profile: Profile { w_under: 75, w_reject: 2, w_nontramp: 0, w_hash_mismatch: 0, w_tick: 25, w_crash: 6, write_faults: false, mpp_choices: &[0, 5, 10, 30, 60, 120], max_parts: 3, ..d.clone() },
             thorough_profile: None,
             cases_quick: 800,
-            cases_thorough: 8000,
+            cases_thorough: 24000,
             nontrivial: |s| s.c11_multi_or_restart > 0,
             classes: |s| {
                 let mut v = vec![];
@@ -391,6 +406,22 @@ pub fn family(base: &Scenario) -> Vec<Scenario> {
         for kind in [crate::node::FaultKind::Reject, crate::node::FaultKind::AppliedButError] {
             let mut s = base.clone();
             s.write_faults = vec![(i, kind)];
+            out.push(s);
+        }
+    }
+    out
+}
+
+/// Every RPC of a base history delayed: ordinal k withheld for m further effects (m in {6, 14, 30}).
+pub fn delay_family(base: &Scenario) -> Vec<Scenario> {
+    let mut w = World::new(Scenario { probe: false, ..base.clone() });
+    w.run();
+    let rpcs = w.shared.lock().unwrap().next_uid.saturating_sub(1).min(40) as u16;
+    let mut out = vec![];
+    for k in 0..rpcs {
+        for m in [6u16, 14, 30] {
+            let mut s = base.clone();
+            s.hold = vec![(k, m)];
             out.push(s);
         }
     }
